@@ -558,7 +558,7 @@ func (m *MLDv2MulticastAddressRecord) serializeTo(b gopacket.SerializeBuffer, op
 func (m *MLDv2MulticastAddressRecord) serializeAuxiliaryDataTo(b gopacket.SerializeBuffer, opts gopacket.SerializeOptions) error {
 	if remainder := len(m.AuxiliaryData) % 4; remainder != 0 {
 		zeroWord := []byte{0x0, 0x0, 0x0, 0x0}
-		m.AuxiliaryData = append(m.AuxiliaryData, zeroWord[:remainder]...)
+		m.AuxiliaryData = append(m.AuxiliaryData, zeroWord[:4-remainder]...)
 	}
 
 	if opts.FixLengths {
